@@ -8,7 +8,8 @@ RULE = ("unroll: seeded random lint-clean acyclic blackbox-free circuits (<=4 in
         "to 2 outputs with inputs (incl. pairings whose key order and value order differ) x n in 1..4; "
         "sequential_unroll: random circuits with 1..3 flops of one blackbox type (pins clk,d,q or clk,rst,d,q,qn) x "
         "add_flop_outputs x initial_values in {None,'0','1',per-flop dict} x remove_unloaded x ignore_pins; all "
-        "initial states and all input sequences are simulated; non-trivial = n >= 2 and a state pair exists")
+        "initial states and all input sequences are simulated; non-trivial = n >= 2 and a state pair exists"
+        "; plus: a node that is input and output paired with itself, ordinary io named like flop pins (sum_q, in_d), names derived from the library's own naming templates, shuffled node insertion order")
 BOUND = "circuits <= 12 nodes; n <= 4 (free signals of the unrolled circuit <= 12); 4/16 hash seeds"
 
 
